@@ -42,7 +42,7 @@ CLAIMS = {
         text=("Generated end-to-end runs (single and joint, unequal series lengths, W odd/even/1) are checked for label-list lengths, "
               "exact -1 margins, label range, MRF count/shape, echoed K and W, and for joint runs that the per-series lists are the "
               "master labelling (run_end hook) cut at the cumulative stacked lengths; helpers enumerated for all small arguments."),
-        note="Trusted: the run_end hook for the master labelling. Runs that raise are discarded and counted.",
+        note="Trusted: the run_end hook for the master labelling. Runs the library refuses (RuntimeError, AssertionError, ValueError) are discarded and counted; a crash with a lookup/attribute/name/type error on a valid input is reported.",
         ref="DESIGN.md section 3, C04"),
     "C05": dict(
         technique="property-based differential testing against a textbook Gaussian log-density (Cholesky log det), kernel level (JIT + interpreted) and on traced runs",
